@@ -73,7 +73,7 @@ NONTRIVIAL = {
 
 ASSUME = [
     "no integration delays; traces and delays are whole micro-seconds (runs with sub-micro-second times are skipped and counted)",
-    "Simulator.tla abstracts the aggregate-base-delay heuristics and the pps bottleneck (no base shifting) and leaves same-time, same-priority order nondeterministic",
+    "SimMech takes WHEN an aggregate base delay is pushed, its amount, and the bottleneck's extra delay as inputs (none in model checking, logged values in trace validation) and leaves same-time, same-priority order nondeterministic",
     "the frameworks inside the simulator are an oracle in model checking (<= Budget actions from a small alphabet)",
     "trace validation reads the add-only hook records of cargo feature `verif` (events with private flags, actions returned, timer firings, exit reason)",
 ]
@@ -125,7 +125,7 @@ def check_sim(prop, tier, seed):
             raise ToolError("mechanism trace validation did not finish: %s" % mtv["incomplete"])
         mech = dict(scenarios=ms["mechanism_traces"], lines=mtv["lines"], explained=mtv["explained"],
                     divergences=len(mtv["diverged"]), first_divergence=(mtv["diverged"] or [None])[0])
-        log("[%s] MECH: %d real runs without pps limit / aggregate delay, %d lines, %d explained step by step by SimMech, %d divergences (diagnostic)" % (
+        log("[%s] MECH: %d real runs (incl. aggregate delays and pps limits; amounts read from the log), %d lines, %d explained step by step by SimMech, %d divergences (diagnostic)" % (
             prop, mech["scenarios"], mech["lines"], mech["explained"], mech["divergences"]))
     known = [k for k in vlib.load_known() if k.get("property") == prop and k.get("status") == "known"]
     known_sigs = {k["signature"] for k in known}
